@@ -1,6 +1,6 @@
 # Claims table (exec'd by gen_manifest.py). Keep in step with DESIGN.md §0/§4/§5.
 PENDING = "check not built yet in this round (implementation order: DESIGN.md §8); what a static rule can and cannot decide for it is in DESIGN.md §4/§5"
-for _p in ["C01","C02","C03","C04","C05","C06","C07","C08","C09","C10","C11","C12","C13","C14","C16","C17","C18","C19"]:
+for _p in ["C01","C02","C03","C04","C05","C06","C07","C08","C09","C10","C11","C12","C16","C17","C18","C19"]:
     NOT_APPLICABLE[_p] = PENDING
 
 claim("C15",
@@ -8,3 +8,14 @@ claim("C15",
   "Trusted: go/types constant folding and type resolution; encoding/json string round-trip; go-flags turning a non-nil Execute error into a non-zero exit status. One known finding (JSON format exits 0 with Breaking entries) is pinned by the test-suite and listed in known_findings.json.",
   "typed-AST table agreement (totality/injectivity/cross-wiring), struct-tag vs comparison-field agreement, structural control-dependence of return statements",
   "DESIGN.md §4 C15")
+
+claim("C13",
+  "Decides structural necessary conditions of 'diff never under-reports': the compatibility policy never maps a code the statement lists as breaking to NonBreaking/Warning and is applied to every stored difference; Compare*Values call sites compare the attribute their label names from opposite sides with the right widened/narrowed sense; every constraint attribute of the statement is compared between the two specs, without a one-sided pre-filter and without a format gate; the parameter/header/items adapters copy every validation field; all five parameter locations are analysed with operation-level override precedence; $ref resolution precedes field reads; every exit-0 return is control-dependent on 'no breaking change'. It does not decide completeness of the analyser against request semantics (nested constraints, location changes, witnesses).",
+  "Trusted: go/types; the side inference seeds (Analyse's parameters are old/new spec); the frozen list of breaking codes taken from the property statement and docs/reference/transform/diff.md. Two known findings (JSON exit status; enum introduced on a value that had none) are listed in known_findings.json.",
+  "side-inference dataflow over the typed AST, table agreement, structural control-dependence, call-site argument agreement",
+  "DESIGN.md §4 C13")
+claim("C14",
+  "Decides the orientation of every difference-emission site of the diff analyser: each directed change code is emitted only under a relational trigger of the matching orientation between spec 1 and spec 2 (derived by side inference and guard classification), Widened/Narrowed agree with the sense of the attribute compared, every directed emission has a mirror emission, and DiffsTo's result orientation is derived from its body. It does not decide multiset equality of two concrete mirrored reports.",
+  "Trusted: go/types; seeds of the side inference; code classes follow the repository's constant names with the mirror table of DESIGN appendix A.3. One known defect (compareDescripton labels a changed description 'deleted' in both directions, pinned by a golden fixture) is listed in known_findings.json under its three obligations.",
+  "side-inference dataflow + guard-literal classification (relational triggers) over the typed AST; mirror-site matching",
+  "DESIGN.md §4 C14")
